@@ -28,6 +28,36 @@ from crosshair.tracers import NoTracing, ResumedTracing
 STATS = {"smt_queries": 0, "smt_seconds": 0.0, "model_hits": {}, "model_fallbacks": {}}
 
 
+# byte-structured integers: z3 ast id -> (ast, [z3 byte terms, big endian]).  An int produced by
+# int.from_bytes (or by vlib.api.sym_int) is the sum of its bytes; hex digits, masks and byte shifts of
+# such an int are then simple functions of ONE byte each, which keeps every solver query linear.
+BYTES = {}
+
+
+def register_bytes(term, byte_terms):
+    BYTES[term.get_id()] = (term, list(byte_terms))
+
+
+def bytes_of(term):
+    hit = BYTES.get(term.get_id())
+    if hit is not None and hit[0].eq(term):
+        return hit[1]
+    return None
+
+
+def _structured(byte_terms):
+    """SymbolicInt for sum(b_i * 256^i) (big-endian list), registered"""
+    n = len(byte_terms)
+    if n == 0:
+        return SymbolicInt(z3.IntVal(0))
+    if n == 1:
+        total = byte_terms[0]
+    else:
+        total = z3.Sum([b if i == n - 1 else b * z3.IntVal(256 ** (n - 1 - i)) for i, b in enumerate(byte_terms)])
+    register_bytes(total, byte_terms)
+    return SymbolicInt(total)
+
+
 def _hit(name):
     STATS["model_hits"][name] = STATS["model_hits"].get(name, 0) + 1
 
@@ -63,7 +93,53 @@ def and_const_expr(xvar, c: int):
     return terms[0] if len(terms) == 1 else z3.Sum(terms)
 
 
+def _and_structured(bts, c):
+    """byte terms of (x & c) for byte-structured x (big-endian bts), c >= 0 narrower than x or not"""
+    n = len(bts)
+    out = []
+    for i, b in enumerate(bts):
+        cj = (c >> (8 * (n - 1 - i))) & 0xFF
+        if cj == 0:
+            out.append(z3.IntVal(0))
+        elif cj == 0xFF:
+            out.append(b)
+        else:
+            out.append(and_const_expr(b, cj))
+    return out
+
+
 def _bitop(op, a, b):
+    with NoTracing():
+        a_sym, b_sym = isinstance(a, SymbolicInt), isinstance(b, SymbolicInt)
+        if a_sym != b_sym and op is ops.and_:
+            x, c = (a, b) if a_sym else (b, a)
+            bts = bytes_of(x.var)
+            if bts is not None and isinstance(c, int):
+                n = len(bts)
+                if c < 0:
+                    c = c & (256 ** n - 1)      # x >= 0 and x < 256^n: high bits of the mask are irrelevant
+                else:
+                    c = c & (256 ** n - 1)
+                _hit("M1s")
+                return _structured(_and_structured(bts, c))
+    return _bitop_generic(op, a, b)
+
+
+def _rshift(op, a, b):
+    with NoTracing():
+        if isinstance(a, SymbolicInt) and not isinstance(b, SymbolicInt) and isinstance(b, int) and b >= 0 and b % 8 == 0:
+            bts = bytes_of(a.var)
+            if bts is not None:
+                _hit("M1s")
+                k = b // 8
+                return _structured(bts[:len(bts) - k] if k < len(bts) else [])
+    if b < 0:
+        raise ValueError("negative shift count")
+    b = realize(b)
+    return a // (2 ** b)
+
+
+def _bitop_generic(op, a, b):
     with NoTracing():
         a_sym, b_sym = isinstance(a, SymbolicInt), isinstance(b, SymbolicInt)
         if a_sym != b_sym:  # exactly one symbolic operand
@@ -103,6 +179,13 @@ def _digit_cp(d, base, upper):
 
 
 def _digit_at(xvar, base, i):
+    if base == 16:
+        bts = bytes_of(xvar)
+        if bts is not None:
+            j = len(bts) - 1 - i // 2
+            if j < 0:
+                return z3.IntVal(0)
+            return bts[j] / 16 if i % 2 else bts[j] % 16
     return (xvar if i == 0 else xvar / z3.IntVal(base ** i)) % base
 
 
@@ -308,6 +391,25 @@ def _int(val=0, base=B._MISSING):
     return int(val, base)
 
 
+# ------------------------------------------------------------------ from_bytes
+def _int_from_bytes(b, byteorder="big", *, signed=False):
+    with NoTracing():
+        ok = isinstance(b, B.BytesLike) and isinstance(byteorder, str) and byteorder in ("big", "little") \
+            and signed is False
+    if ok:
+        with NoTracing():
+            with ResumedTracing():
+                n = realize(len(b))
+                elems = [b[i] for i in range(n)]
+            if any(isinstance(e, SymbolicInt) for e in elems):
+                if byteorder == "little":
+                    elems.reverse()
+                terms = [e.var if isinstance(e, SymbolicInt) else z3.IntVal(int(e)) for e in elems]
+                _hit("from_bytes")
+                return _structured(terms)
+    return int.from_bytes(b, byteorder, signed=signed)
+
+
 # ------------------------------------------------------------------- hex digits
 def _make_hex_digit(value):
     """branch-free replacement of builtinslib.make_hex_digit (stock forks per nibble)."""
@@ -351,9 +453,10 @@ def install():
     for op in (ops.and_, ops.or_, ops.xor):
         B._BIN_OPS_SEARCH_ORDER.append((op, SymbolicInt, int, _bitop))
         B._BIN_OPS_SEARCH_ORDER.append((op, int, SymbolicInt, _bitop))
+    B._BIN_OPS_SEARCH_ORDER.append((ops.rshift, SymbolicInt, int, _rshift))
     B._BIN_OPS.clear()
     OVERRIDES.update({format: _format, str.__mod__: _str_percent_format, hex: _hex,
-                      int: _int, bytes.decode: _bytes_decode})
+                      int: _int, bytes.decode: _bytes_decode, int.from_bytes: _int_from_bytes})
     B.make_hex_digit = _make_hex_digit
     _wrap_solver()
 
